@@ -73,7 +73,7 @@ def header_builder(ctx, rule, fv, who, src, n, k):
     found = None
     for l in loops:
         it = fv.term(l["iter"])
-        if it[0] == "call" and it[1].endswith("::iter") and it[2] == src:
+        if (it[0] == "call" and it[1].split("::")[-1] in ("iter", "into_iter") and it[2] == src) or it == src:
             found = l
             break
     if found is None:
